@@ -471,7 +471,14 @@ func setMapField(field reflect.Value, fieldType reflect.Type, isPtr bool, mapArr
 // setFieldFromString sets a struct field from a string default value.
 func setFieldFromString(field reflect.Value, fieldType reflect.Type, s string) error {
 	if fieldType.Kind() == reflect.Ptr {
-		fieldType = fieldType.Elem()
+		// A pointer field receives a pointer to the parsed default; calling
+		// SetString/SetInt/... on the pointer value itself panics.
+		ptr := reflect.New(fieldType.Elem())
+		if err := setFieldFromString(ptr.Elem(), fieldType.Elem(), s); err != nil {
+			return err
+		}
+		field.Set(ptr)
+		return nil
 	}
 	switch fieldType.Kind() {
 	case reflect.String:
